@@ -186,9 +186,7 @@ def expect(op: str, a: Dict[str, Any], world: Dict[str, Any]):
         nbytes = len(name.encode("utf-8"))
         if len(name) >= 2 and nbytes <= 32:
             return ("ok", [("set_name", {"name": name})])
-        if len(name) == 1 and nbytes > 1:
-            return ("unspecified", "one multi-byte character")
-        return ("reject", "name too short or too long for 32 bytes")
+        return ("reject", "name too short (fewer than 2 characters) or too long for 32 bytes")
     if op == "get_schedules":
         return ("ok", [("get_schedules", {})])
     if op == "delete_schedule":
@@ -277,6 +275,8 @@ def gen_args(op: str, r, world: Dict[str, Any], hostile: bool = True) -> Dict[st
             pool = r.choice(["hebrew", "accented", "cjk", "emoji"])
             n = {"hebrew": 16, "accented": 16, "cjk": 10, "emoji": 8}[pool] + r.randrange(-1, 2)
             return {"name": gen.name_of(r, n, pool)}
+        if r.random() < 0.4:
+            return {"name": gen.name_of(r, 1)}          # a single character of any script: too short
         return {"name": gen.name_of(r, r.choice([0, 1, 2, 31, 32, 33]), "ascii")}
     if op == "delete_schedule":
         return {"slot": str(r.randrange(8))}
